@@ -67,6 +67,23 @@ func dump() map[uint64]ginfo {
 				if c := strings.IndexByte(st, ','); c >= 0 {
 					st = st[:c]
 				}
+				// a goroutine waiting for a mutex / semaphore is only "parked" when the lock belongs to the code under test
+				// (startStopMutex, autoStartOnce, writeWg); locks inside the harness, sync.Map or mapdb are transient
+				if st == "semacquire" || strings.HasPrefix(st, "sync.") {
+					caller := ""
+					lines := bytes.Split(blk, []byte("\n"))
+					for k := 1; k < len(lines); k += 2 {
+						f := string(lines[k])
+						if strings.HasPrefix(f, "sync.") || strings.HasPrefix(f, "runtime.") || strings.HasPrefix(f, "internal/") {
+							continue
+						}
+						caller = f
+						break
+					}
+					if !strings.HasPrefix(caller, "github.com/iotaledger/hive.go/kvstore.(*BatchedWriter)") {
+						st = "running"
+					}
+				}
 				res[id] = ginfo{state: st, writer: bytes.Contains(blk, []byte(").runBatchWriter")) || bytes.Contains(blk, []byte("startBatchWriter.gowrap")) ||
 					bytes.Contains(blk, []byte("startBatchWriter.func"))} // a goroutine that has not run yet shows only the go-statement wrapper
 			}
@@ -76,13 +93,16 @@ func dump() map[uint64]ginfo {
 	}
 }
 
-// goroutine status names of the runtime that are not wait reasons
+// parked: the goroutine is blocked in an application-level synchronisation operation. Runtime-internal waits
+// ("GC assist wait", "GC sweep wait", ...) and the scheduler states (running, runnable, syscall, preempted, ...) are
+// transient and count as still running.
 func parked(st string) bool {
 	switch st {
-	case "running", "runnable", "syscall", "preempted", "copystack", "idle", "dead", "waiting", "":
-		return false
+	case "chan receive", "chan send", "select", "semacquire", "sync.Mutex.Lock", "sync.RWMutex.RLock", "sync.RWMutex.Lock",
+		"sync.Cond.Wait", "sync.WaitGroup.Wait", "sleep", "chan receive (nil chan)", "chan send (nil chan)", "select (no cases)":
+		return true
 	}
-	return true
+	return false
 }
 
 // ---------------------------------------------------------------- events
@@ -626,9 +646,8 @@ func runScript(rng *vx.Rng, directed int) (*scriptCase, *runner) {
 			}
 		case it == "IWait":
 			// wait for the timer: the next writer callback
-			w.mu.Lock()
-			n0 := len(w.events)
-			w.mu.Unlock()
+			// baseline = what has been reported so far: the timer may already have fired since the last snapshot
+			n0 := r.seen
 			dl := time.Now().Add(20*T + 2*time.Second)
 			for {
 				w.mu.Lock()
